@@ -1007,7 +1007,25 @@ const KEY_BYTES: std::ops::RangeFrom<usize> = 64..;
 
 /// The identifier of a record.
 #[derive(Clone, Serialize, Deserialize, PartialEq, Eq, PartialOrd, Ord)]
+#[serde(try_from = "Bytes")]
 pub struct RecordIdentifier(Bytes);
+
+/// Error returned when bytes are too short to be a [`RecordIdentifier`].
+#[derive(Debug, thiserror::Error)]
+#[error("record identifier must be at least 64 bytes long")]
+pub struct InvalidRecordIdentifier;
+
+impl TryFrom<Bytes> for RecordIdentifier {
+    type Error = InvalidRecordIdentifier;
+
+    /// A record identifier is the namespace (32 bytes), the author (32 bytes) and the key.
+    fn try_from(bytes: Bytes) -> Result<Self, Self::Error> {
+        if bytes.len() < KEY_BYTES.start {
+            return Err(InvalidRecordIdentifier);
+        }
+        Ok(Self(bytes))
+    }
+}
 
 impl Default for RecordIdentifier {
     fn default() -> Self {
